@@ -986,7 +986,7 @@ class Interp:
                     self.raise_('ZeroDivisionError')
                 return VReal(x / y)
             if isinstance(op, ast.Mod) and not real:
-                if not self.branch(y != 0):
+                if not self.spec_mode and not self.branch(y != 0):
                     self.raise_('ZeroDivisionError')
                 # Python's % takes the sign of the divisor; z3 mod is non-negative for y>0
                 return VInt(z3.If(y > 0, x % y, -((-x) % (-y))))
